@@ -2,6 +2,7 @@ package mvp8_0
 
 import (
 	"fmt"
+	"sync"
 
 	co "github.com/teivah/majorana/common/coroutine"
 	"github.com/teivah/majorana/common/latency"
@@ -50,6 +51,8 @@ type cacheController struct {
 
 	// Transient
 	post func()
+	// L3 line lock held by the read in flight, released by flush
+	l3Held *sync.Mutex
 }
 
 func newCacheController(id int, ctx *risc.Context, mmu *memoryManagementUnit, msi *msi, l3 *comp.LRUCache) *cacheController {
@@ -261,10 +264,12 @@ func (cc *cacheController) coRead(r ccReadReq) ccReadResp {
 								if !mu.TryLock() {
 									return ccReadResp{}
 								}
+								cc.l3Held = mu
 
 								return cc.read.ExecuteWithCheckpointAfter(r, latency.L3Access, func(r ccReadReq) ccReadResp {
 									shouldEvict := cc.pushLineToL3(l3Addr, l3Data)
 									mu.Unlock()
+									cc.l3Held = nil
 									if shouldEvict != nil {
 										pending := cc.msi.evictL3ExtraCacheLine(cc.id, shouldEvict.Boundary[0])
 										cc.read.Checkpoint(func(r ccReadReq) ccReadResp {
@@ -497,7 +502,12 @@ func (cc *cacheController) flush() {
 	for k, sem := range cc.l1LockSems {
 		sem.Unlock()
 		delete(cc.l1LockSems, k)
-	}	// A fill interrupted between the push into L1 and the state update leaves a
+	}
+	if cc.l3Held != nil {
+		cc.l3Held.Unlock()
+		cc.l3Held = nil
+	}
+	// A fill interrupted between the push into L1 and the state update leaves a
 	// line that the protocol does not know about: drop it
 	var orphans []comp.AlignedAddress
 	for _, line := range cc.l1d.Lines() {
